@@ -12,7 +12,7 @@ Decided (static, all paths of the named functions):
 Not decided: byte-level behaviour of idf_input_string on arbitrary bytes.
 """
 from ..facts import peel, strip_casts, show, walk, cond_atom
-from .common import (stream_chain, callee_short, field_of, base_of, deref,
+from .common import (stream_chain, callee_short, field_of, base_of, deref, local_ref,
                      assigned_target, const_int, refs_local, is_method_call)
 
 LEVEL = "proof"
@@ -435,9 +435,58 @@ def run(ctx):
     ctx.floor("R12.1", "stream operators of record classes", n_ops, 18)
 
     _top_level(ctx)
+    _byte_copy(ctx)
     _copy_completeness(ctx, serialised)
     _version_gates(ctx)
     _error_protocol(ctx)
+
+
+def _byte_copy(ctx):
+    """R12.5: the readers of length-prefixed strings copy exactly `length`
+    bytes whatever their value (every byte 0x00-0xff must round-trip): in the
+    count-controlled loop no branch depends on the byte read and every byte read
+    is stored."""
+    db = ctx.db
+    ctx.rule("R12.5", "idf_input_string copies exactly `length` bytes: the copy loop has no exit or branch that depends on the value of the byte read, and idf_output_string writes the whole string")
+    n = 0
+    for f in db.fns("idf_input_string"):
+        loops = [x for x in f.walk() if x.get("k") in ("while", "for", "do")]
+        for lp in loops:
+            gets = [c for c in walk(lp["body"]) if c.get("k") == "call" and callee_short(c) in ("get", "read", "getline", "peek")]
+            if not gets:
+                continue
+            n += 1
+            # locals holding a byte that was read
+            byte_vars = set()
+            for x in walk(lp["body"]):
+                if x.get("k") == "decls":
+                    for d in x["d"]:
+                        if "init" in d and any(c in list(walk(d["init"])) for c in gets):
+                            byte_vars.add(d["d"])
+                t = assigned_target(x)
+                if t and local_ref(t[0]) is not None and any(c in list(walk(t[1])) for c in gets):
+                    byte_vars.add(local_ref(t[0])["d"])
+            bad = None
+            for x in walk(lp["body"]):
+                if x.get("k") in ("if", "cond", "switch", "while"):
+                    c = x.get("c")
+                    dep = any((y.get("k") == "ref" and y.get("d") in byte_vars) or (y.get("k") == "call" and callee_short(y) in ("get", "peek")) for y in walk(c)) if c else False
+                    if dep:
+                        bad = x
+            ctx.ob("R12.5", "idf_input_string(%s)|loop-not-data-dependent" % f.params[1]["t"].replace(" ", ""), bad is None, f.loc(bad) if bad else f.loc(lp),
+                   "the byte-copy loop %s" % ("branches on the byte it read (%s): some byte value cannot round-trip" % show(bad) if bad else "copies every byte unconditionally"))
+            cond = lp.get("c")
+            ok = cond is not None and not any(y.get("k") == "call" and callee_short(y) in ("get", "peek", "eof", "good") for y in walk(cond))
+            ctx.ob("R12.5", "idf_input_string(%s)|count-controlled" % f.params[1]["t"].replace(" ", ""), ok, f.loc(lp), "the loop is controlled by the length read from the file: %s" % show(cond))
+    ctx.floor("R12.5", "byte-copy loops in idf_input_string", n, 2)
+    for f in db.fns("idf_output_string"):
+        if "basic_string" not in f.sig and "std::string" not in f.sig:
+            continue
+        # out << str.length() … out << str   (whole string, not c_str())
+        wrote_len = any(c.get("k") == "call" and callee_short(c) in ("length", "size") for c in f.walk())
+        cstr = [c for c in f.walk() if c.get("k") == "call" and callee_short(c) in ("c_str", "data")]
+        ctx.ob("R12.5", "idf_output_string(std::string)|writes-whole-string", wrote_len and not cstr, f.loc(),
+               "writes the length and the std::string itself (a c_str() would stop at the first NUL byte)")
 
 
 def _all(evs):
